@@ -992,7 +992,7 @@ func main() {
 	}
 	defer r.w.Close()
 	c.Res.Extra["race_detector"] = raceEnabled
-	c.Res.Rule = "specs = repository .sysl files without remote imports + generated grammatical specs (nested blocks, calls, types, REST) + the same with one damaged line + mixin modules (chains, diamonds, cycles, missing sources); each spec is compiled sequentially (baseline, repeated) and in batches by k..64 goroutines with random start offsets and GOMAXPROCS 1..16, text and JSON serialisations compared byte for byte; the lexer-state map is driven by concurrent create/look-up/delete cycles; distinct = (spec, k, GOMAXPROCS) or sequential result; non-trivial = every concurrent compilation and every sequential compilation of a non-tiny spec. Round 3: generated modules with views (untyped nested transforms under assignments and lets, shared by mixins, equal view and let names in several applications; non-trivial = something to infer) compared with the model and compiled repeatedly in one and in fresh processes; import graphs with differently spelled imports (letter case, ./, a/../, no extension, leading /) compiled through a gate reader under forced completion orders of the reads (distinct = (graph, completion order); non-trivial = a file named by several import statements); one parse.Parser value used twice in a row and by 8 goroutines; 8 compilations sharing one reader; an edit history of one document compiled in order by 1 and 4 goroutines"
+	c.Res.Rule = "specs = repository .sysl files without remote imports + generated grammatical specs (nested blocks, calls, types, REST) + the same with one damaged line + mixin modules (chains, diamonds, cycles, missing sources); each spec is compiled sequentially (baseline, repeated) and in batches by k..64 goroutines with random start offsets and GOMAXPROCS 1..16, text and JSON serialisations compared byte for byte; the lexer-state map is driven by concurrent create/look-up/delete cycles; distinct = (spec, k, GOMAXPROCS) or sequential result; non-trivial = every concurrent compilation and every sequential compilation of a non-tiny spec. Round 3: generated modules with views (untyped nested transforms under assignments and lets, shared by mixins, equal view and let names in several applications; non-trivial = something to infer) compared with the model and compiled repeatedly in one and in fresh processes; import graphs with differently spelled imports (letter case, ./, a/../, no extension, leading /) compiled through a gate reader under forced completion orders of the reads (distinct = (graph, completion order); non-trivial = a file named by several import statements); one parse.Parser value used twice in a row and by 8 goroutines; 8 compilations sharing one reader; an edit history of one document compiled in order by 1 and 4 goroutines SECOND PASS of round 3: one parse.Parser value compiles 2..4 generated view modules one after another (sources repeated; view names, let names drawn from small ranges so that scope keys recur across sources; half of the modules have a let over an untyped nested transform in every view) - every call must give byte for byte what a parser of its own gives and leave in GetAssigns / GetLets / GetMessages what a fresh parser holds; the same parser used by two goroutines whose calls are interleaved with a gate reader (start 1, start 2, rest of 1, rest of 2); one parser compiles all parser-sharing specs in a random order three times. Non-trivial: every chain / gated run (each has at least two calls on one parser)."
 
 	if c.Replay != "" {
 		var rp replay
@@ -1412,7 +1412,7 @@ func doReplay(r *runner, rp replay) {
 			out, ok2 := r.callOn(w, req{Op: "seq", Specs: sp, Jobs: []int{0}}, rp, "")
 			w.Close()
 			if ok2 && len(out.Outcomes) == 1 && stable[0] && out.Outcomes[0] != base[0] {
-				c.Fail("unstable-sequential:views", fmt.Sprintf("compiled in two processes: %+v and %+v", base[0], out.Outcomes[0]), rp)
+				c.Fail("unstable-sequential:"+sp[0].Kind, fmt.Sprintf("compiled in two processes: %+v and %+v", base[0], out.Outcomes[0]), rp)
 				break
 			}
 		}
@@ -1422,7 +1422,9 @@ func doReplay(r *runner, rp replay) {
 			n = 60
 		}
 		r.gateSpec(rp.Graph, n, replay{Kind: "gate", Graph: rp.Graph, N: n}, nil)
-	case "pshare-reuse", "pshare-conc":
+	case "pchain", "pgate":
+		r.replayCalls(rp)
+	case "pshare-reuse", "pshare-conc", "pshare-chain":
 		sp := rp.Specs
 		for i := range sp {
 			sp[i].ID = i
